@@ -184,25 +184,37 @@ func (ex *Exec) verifyFunction(fn *ssa.Function, con *Contract) (rep *FuncReport
 		ex.note("%s: no reachable return", fr.label)
 		return rep
 	}
-	env := ex.funcEnv(fr, res.st)
-	env.objsFromArgs(ex, fn, args)
 	sc := ex.funcScope(fn, con)
 	o := fn
 	if fn.Origin() != nil {
 		o = fn.Origin()
 	}
-	for i, r := range sc.rets {
-		if i < len(res.vals) {
-			env.objs[r] = res.vals[i]
-			rv := o.Signature.Results().At(i)
-			if rv.Name() != "" && rv.Name() != "_" {
-				env.objs[rv] = res.vals[i]
+	mkEnv := func(st *State, vals []Val) *SpecEnv {
+		env := ex.funcEnv(fr, st)
+		env.objsFromArgs(ex, fn, args)
+		for i, r := range sc.rets {
+			if i < len(vals) {
+				env.objs[r] = vals[i]
+				rv := o.Signature.Results().At(i)
+				if rv.Name() != "" && rv.Name() != "_" {
+					env.objs[rv] = vals[i]
+				}
 			}
 		}
+		return env
 	}
+	// Postconditions are evaluated at every return site on that site's own state (no merged
+	// ite-heaps), and conjoined: one obligation per clause.
 	for _, cl := range con.Ensures {
-		ex.oblige(fr, res.st, "ensures", cl.Label, env.evalBool(cl.Text), token.NoPos, cl.Text)
+		var parts []*Term
+		for _, r := range fr.rets {
+			env := mkEnv(r.st, r.vals)
+			parts = append(parts, Implies(r.st.reach, env.evalBool(cl.Text)))
+		}
+		top := &State{reach: True()}
+		ex.oblige(fr, top, "ensures", cl.Label, And(parts...), token.NoPos, cl.Text)
 	}
+	env := mkEnv(res.st, res.vals)
 	if con.HasMod || con.Pure {
 		ex.frameCheck(fr, con, res.st, env)
 	}
